@@ -5,6 +5,7 @@ LEVEL = "proof"
 RELEASE_TOO = True
 MODEL_FILES = ["Spec/Graph6Spec.v", "Model/Graph6M.v", "Model/DotM.v"]
 THEOREMS = []
+EXTRA_PROPS = ["C18b"]
 STREAMS = [("C18g6", 500, 15000), ("C18dot", 2500, 100000)]
 SHARD = 3000
 RULE = ("graph6: simple undirected graphs with 0, 1, 2..15, 60..70, 62, 63, 64 nodes at five densities, held in Graph, "
